@@ -876,7 +876,7 @@ func (s *schemaBuilder) buildFromStruct(decl *entityDecl, st *types.Struct, sche
 		if err = s.buildFromType(fld.Type(), schemaTypable{&ps, 0}); err != nil {
 			return err
 		}
-		if isString {
+		if isString && isStringableType(fld.Type()) {
 			ps.Typed("string", ps.Format)
 			ps.Ref = spec.Ref{}
 			ps.Items = nil
@@ -1192,21 +1192,27 @@ func parseJSONTag(field *ast.Field) (name string, ignore, isString, omitEmpty bo
 	return name, false, false, false, nil
 }
 
-// isFieldStringable check if the field type is a scalar. If the field type is
-// *ast.StarExpr and is pointer type, check if it refers to a scalar.
-// Otherwise, the ",string" directive doesn't apply.
+// isFieldStringable checks if the field type may be a scalar, from the way it is written: a type
+// name (builtin, defined or imported), possibly behind a pointer. Composite type expressions are not.
+// Whether the named type actually is a scalar is decided on the resolved type, with isStringableType.
 func isFieldStringable(tpe ast.Expr) bool {
-	if ident, ok := tpe.(*ast.Ident); ok {
-		switch ident.Name {
-		case "int", "int8", "int16", "int32", "int64",
-			"uint", "uint8", "uint16", "uint32", "uint64", "uintptr",
-			"float32", "float64", "string", "bool":
-			return true
-		}
-	} else if starExpr, ok := tpe.(*ast.StarExpr); ok {
-		return isFieldStringable(starExpr.X)
-	} else {
+	switch t := tpe.(type) {
+	case *ast.Ident, *ast.SelectorExpr:
+		return true
+	case *ast.StarExpr:
+		return isFieldStringable(t.X)
+	default:
 		return false
 	}
-	return false
+}
+
+// isStringableType tells if the ",string" option of a json tag applies to a field of this type: like
+// encoding/json, to strings, floating point numbers, integers and booleans - builtin or defined - possibly
+// behind one (unnamed) pointer.
+func isStringableType(tpe types.Type) bool {
+	if ptr, isPointer := tpe.(*types.Pointer); isPointer {
+		tpe = ptr.Elem()
+	}
+	basic, isBasic := tpe.Underlying().(*types.Basic)
+	return isBasic && basic.Info()&(types.IsString|types.IsFloat|types.IsInteger|types.IsBoolean) != 0
 }
